@@ -321,6 +321,9 @@ var logQueries = [][2]string{
 }
 
 // worker query <dir> <out> <withMetrics>
+// number of times the query list is run in this process (buffer pools persist across queries)
+var queryRounds = 1
+
 func workerQuery(dir, outPath string, withMetrics bool) {
 	log.SetLevel(log.PanicLevel)
 	var out workerOut
@@ -335,15 +338,17 @@ func workerQuery(dir, outPath string, withMetrics bool) {
 		flush()
 		os.Exit(0)
 	}
-	for _, q := range logQueries {
-		res := runLogQuery(q[0], q[1])
-		out.Q = append(out.Q, res)
-		flush() // a later crash keeps the earlier answers
-		if res.Err == "timeout" {
-			// the stuck query keeps spinning in this process: stop here, the driver re-runs the mutation alone
-			out.Done = true
-			flush()
-			os.Exit(0)
+	for round := 0; round < queryRounds; round++ {
+		for _, q := range logQueries {
+			res := runLogQuery(q[0], q[1])
+			out.Q = append(out.Q, res)
+			flush() // a later crash keeps the earlier answers
+			if res.Err == "timeout" {
+				// the stuck query keeps spinning in this process: stop here, the driver re-runs the mutation alone
+				out.Done = true
+				flush()
+				os.Exit(0)
+			}
 		}
 	}
 	if withMetrics {
